@@ -23,7 +23,7 @@ def cases(tier, seed):
     for n in range(b["n"][0], b["n"][1] + 1):
         for alpha in (0.5, 1.0, 1.5):
             for m in (1, 2, 3):
-                for w in (False, True):
+                for w in (False, True, "zeros"):
                     yield {"n": n, "alpha": alpha, "m": m, "weights": w, "S": b["S"]}
 
 
@@ -75,6 +75,10 @@ def run_case(case):
     X = numpy.arange(n, dtype=numpy.float64).reshape(-1, 1)
     y = 100.0 + numpy.arange(n)
     w = 1000.0 + numpy.arange(n) if case["weights"] else None
+    if case["weights"] == "zeros":
+        # some rows carry weight 0 (every row stays eligible for the draw; the weight travels with the row)
+        w = numpy.where(numpy.arange(n) % 2 == 0, 0.0, w)
+    w_of = (lambda idx_: None) if w is None else (lambda idx_: w[idx_.astype(int)])
     P = numpy.array([[0.0], [1.5], [-2.0], [7.0]])
     Ps = [P, numpy.array([[0], [1], [-2], [7]], dtype=numpy.int64), P.astype(numpy.float32), numpy.asfortranarray(P)]
     x = alpha * n
@@ -116,7 +120,8 @@ def run_case(case):
             if len(ys) not in sizes_ok or len(Xs) != len(ys):
                 bad("sample size != round(alpha*n)", ncond, "%d rows, expected %r %s" % (len(ys), sorted(sizes_ok), desc))
             idx = Xs[:, 0] if len(Xs) else numpy.array([])
-            if not numpy.array_equal(ys - 100.0, idx) or (w is not None and (ws is None or not numpy.array_equal(ws - 1000.0, idx))):
+            if not numpy.array_equal(ys - 100.0, idx) or (w is not None and (ws is None or len(ws) != len(idx) or (
+                    len(idx) and (idx.min() >= 0 and idx.max() <= n - 1 and (idx == idx.astype(int)).all()) and not numpy.array_equal(ws, w_of(idx))))):
                 bad("features/target/weight of a drawn row not kept together", ncond,
                     "X=%r y=%r w=%r %s" % (Xs.ravel().tolist(), ys.tolist(), None if ws is None else ws.tolist(), desc))
             if w is None and ws is not None:
